@@ -67,7 +67,7 @@ def boundary_programs():
 
 
 def run(rep, tier, rng):
-    n = 32 if tier == "quick" else 600
+    n = 32 if tier == "quick" else 150
     common.prepare()
     pr = base.proof_and_report(rep, "C01")
     r = rng.fork("c01")
